@@ -129,6 +129,17 @@ def check(run):
     units = [shards.Unit("u_" + s.name.lower(), glue(s), meta={"enum_src": s.render()}, sig=s.signature()) for s in specs]
     run.rule = RULE
     samples = standard_flow(run, units, deps["std"], vmon, profiles=("debug",), tag="c13")
+    if thorough:
+        from .. import miri
+        r2 = gen.rng_for(run.seed, "c13-miri")
+        mu = []
+        j = 0
+        while len(mu) < 3:
+            j += 1
+            ms = build(r2, "M%d" % j, generics=[None, "a", "T"][len(mu)])
+            if ms is not None and len(ms.variants) <= 4:
+                mu.append(shards.Unit("u_m%d" % j, glue(ms), meta={"enum_src": ms.render()}, sig="miri"))
+        miri.run_miri(run, mu)
     pick_samples(run, samples, {u.name: u for u in units})
     run.extra["programs"] = len(units)
     run.assumptions = ["derive(Debug)/derive(Clone) of std are correct (Debug rendering is the observation channel for payloads)"]
